@@ -1,7 +1,213 @@
-import RulioModel.Events
+import RulioProofs.Events
 
-/-! # C04 — actions exactly once (placeholder obligations until the Events proofs land) -/
+/-! # C04 — an event runs each action exactly once per rule, `when` binding and condition binding
+(property theorems only)
 
-/-- the built-in bindings are only added where absent -/
-theorem addDefault_keeps (bs : Bs) (k : String) (v w : J) (h : bs.get? k = some w) : addDefault bs k v = bs := by
-  simp [addDefault, h]
+`processEvent srch loc ev cands` is the model of `ProcessEvent` (events.go: FindRules → EvalRule →
+EvalRuleCondition → ExecRuleAction, `WorkWalk` with `steps = 0`) for the candidate list `cands`
+(id, rule, enabled — as found by the rule search, C01) and the fact search `srch` used by conditions (C03).
+All theorems hold for every `srch`, every event, every candidate list (any number of rules, actions,
+`when` bindings, condition bindings). Vocabulary (`RulioModel/QuerySpec.lean`): `dispatch` (enabled and matching
+candidates with their `when` bindings), `condEnv` (binding + `?event`/`?location`/`?ruleId`), `condResult`
+(the condition's result on an environment), `actNodeOf b a` (the leaf of action `a` on binding `b`),
+`actsOf r out` (one leaf per result binding × action), `okValues`, `treeValues`, `actCount`. -/
+
+open QueryProofs EventsProofs
+
+/-! ## 0. accumulator-free form of the walk -/
+
+/-- `ProcessEvent` = dispatch, then one `ruleStep` per dispatched rule until a step aborts; a dispatch error
+(matcher error in a `when`) gives an empty, aborted tree -/
+theorem process_event_spec (srch : Srch) (loc : String) (ev : Obj) (cands : List (String × RuleM × Bool)) :
+    processEvent srch loc ev cands =
+      (match dispatch ev cands with
+       | .error e => { err := some e, rules := [], values := [], aborted := true }
+       | .ok disp =>
+         { err := none, rules := (runUntil (ruleStep srch loc ev) disp).1,
+           values := (runUntil (ruleStep srch loc ev) disp).2.1,
+           aborted := (runUntil (ruleStep srch loc ev) disp).2.2 }) :=
+  processEvent_eq srch loc ev cands
+
+/-- the dispatched rules are, in visiting order, exactly the candidates that are enabled and whose `when` has
+at least one binding against the event -/
+theorem dispatch_selects (ev : Obj) (cands : List (String × RuleM × Bool)) (disp : List (String × RuleM × List Bs))
+    (h : dispatch ev cands = .ok disp) :
+    disp = cands.filterMap (fun c => match dispatchOne ev c with | .ok o => o | .error _ => none) :=
+  dispatch_ok ev cands disp h
+
+/-! ## 1. `exec_count` -/
+
+/-- the tree of a run in which nothing aborts: one rule node per dispatched rule, in order; under it exactly one
+condition node per `when` binding, in order; under it one leaf per condition result binding (outer) and action
+(inner) — and every condition evaluation succeeded -/
+theorem tree_shape (srch : Srch) (loc : String) (ev : Obj) (cands : List (String × RuleM × Bool))
+    (disp : List (String × RuleM × List Bs)) (hd : dispatch ev cands = .ok disp)
+    (h : (processEvent srch loc ev cands).aborted = false) :
+    (processEvent srch loc ev cands).err = none ∧
+    (processEvent srch loc ev cands).rules = disp.map (ruleNodeSpec srch loc ev) ∧
+    ∀ d ∈ disp, ∀ b ∈ d.2.2, ∃ out, condResult srch d.2.1 (condEnv loc ev d.1 b) = .ok out :=
+  ⟨by rw [processEvent_eq, hd], tree_not_aborted srch loc ev cands disp hd h⟩
+
+/-- `exec_count`: when nothing aborts, the number of action executions (leaves) is
+Σ over dispatched rules Σ over `when` bindings Σ over condition result bindings of the number of actions -/
+theorem exec_count (srch : Srch) (loc : String) (ev : Obj) (cands : List (String × RuleM × Bool))
+    (disp : List (String × RuleM × List Bs)) (hd : dispatch ev cands = .ok disp)
+    (h : (processEvent srch loc ev cands).aborted = false) :
+    actCount (processEvent srch loc ev cands) =
+      (disp.map fun d => (d.2.2.map fun b =>
+        (condOut srch d.2.1 (condEnv loc ev d.1 b)).length * d.2.1.actions.length).sum).sum := by
+  unfold actCount
+  rw [(tree_not_aborted srch loc ev cands disp hd h).1]
+  exact actCount_spec srch loc ev disp
+
+/-- each dispatched rule has exactly one condition node per `when` binding, carrying that binding's environment -/
+theorem one_cond_per_when_binding (srch : Srch) (loc : String) (ev : Obj) (cands : List (String × RuleM × Bool))
+    (disp : List (String × RuleM × List Bs)) (hd : dispatch ev cands = .ok disp)
+    (h : (processEvent srch loc ev cands).aborted = false) :
+    (processEvent srch loc ev cands).rules.map (fun rn => (rn.id, rn.bss, rn.conds.map (·.bs))) =
+      disp.map (fun d => (d.1, d.2.2, d.2.2.map (condEnv loc ev d.1))) := by
+  rw [(tree_not_aborted srch loc ev cands disp hd h).1, List.map_map]
+  apply List.map_congr_left
+  intro d _
+  simp only [Function.comp, ruleNodeSpec, List.map_map]
+  rfl
+
+/-! ## 2. `exec_env` -/
+
+/-- the condition's environment: the `when` binding, extended by `?event`, `?location`, `?ruleId` only where
+the binding does not already bind them -/
+theorem cond_env_get (loc : String) (ev : Obj) (id : String) (bs : Bs) (k : String) :
+    Bs.get? (condEnv loc ev id bs) k =
+      (Bs.get? bs k).or (Bs.get? [("?event", .obj ev), ("?location", .str loc), ("?ruleId", .str id)] k) :=
+  condEnv_get loc ev id bs k
+
+/-- the `when` binding itself is kept as is (the defaults are appended) -/
+theorem cond_env_keeps (loc : String) (ev : Obj) (id : String) (bs : Bs) : bs <+: condEnv loc ev id bs :=
+  condEnv_prefix loc ev id bs
+
+/-- in EVERY tree (aborted or not) the condition nodes of a rule node carry, in order, the environments of a
+prefix of its `when` bindings -/
+theorem cond_nodes_env (srch : Srch) (loc : String) (ev : Obj) (cands : List (String × RuleM × Bool))
+    (rn : RuleNode) (hrn : rn ∈ (processEvent srch loc ev cands).rules) :
+    ∃ n, rn.conds.map (·.bs) = (rn.bss.take n).map (condEnv loc ev rn.id) :=
+  tree_cond_env srch loc ev cands rn hrn
+
+/-- a failing condition (evaluated on exactly `[condEnv …]`): error node, no action runs, the walk aborts -/
+theorem eval_cond_error (srch : Srch) (loc : String) (ev : Obj) (id : String) (r : RuleM) (bs : Bs) (e : LErr)
+    (h : condResult srch r (condEnv loc ev id bs) = .error e) :
+    evalCond srch loc ev id r bs = ({ bs := condEnv loc ev id bs, err := some e, acts := [] }, [], true) :=
+  evalCond_err srch loc ev id r bs e h
+
+/-- `exec_env` for a rule without `serialActions`: the condition is evaluated on exactly `[condEnv …]`; every
+action runs once on every result binding `b` (leaf `actNodeOf b a`), the values are those of the completed leaves -/
+theorem eval_cond_concurrent (srch : Srch) (loc : String) (ev : Obj) (id : String) (r : RuleM) (bs : Bs)
+    (out : List Bs) (h : condResult srch r (condEnv loc ev id bs) = .ok out) (hs : r.serial = false) :
+    evalCond srch loc ev id r bs =
+      ({ bs := condEnv loc ev id bs, err := none, acts := actsOf r out }, okValues (actsOf r out), false) :=
+  evalCond_nonserial srch loc ev id r bs out h hs
+
+/-- an action sees exactly `StripQuestionMarks` of the condition's result binding -/
+theorem action_sees_stripped (o : Obj) (b : Bs) :
+    execAction (.obj o) b = evalTmpl ((Obj.get? o "verif_tmpl").getD .null) (stripQ b) :=
+  execAction_obj o b
+
+/-- in particular an action of the `echo` family returns its visible variables: `.obj (stripQ b)` -/
+theorem action_echo (a : J) (b : Bs) (h : isEcho a) :
+    execAction a b = .ok (.obj (stripQ b)) ∧ actNodeOf b a = { ok := true, value := .obj (stripQ b) } :=
+  ⟨execAction_echo a b h, actNodeOf_ok b a _ (execAction_echo a b h)⟩
+
+/-- with `echo` actions every leaf reports the stripped condition result binding it ran on -/
+theorem acts_echo (r : RuleM) (out : List Bs) (h : ∀ a ∈ r.actions, isEcho a) :
+    actsOf r out =
+      out.flatMap (fun b => r.actions.map (fun _ => ({ ok := true, value := .obj (stripQ b) } : ActNode))) :=
+  actsOf_echo r out h
+
+/-! ## 3. `tree_values_agree`, `failure_isolated`, serial rules -/
+
+/-- `values` is exactly the list of `value`s of the completed (`ok`) action leaves, in walk order — for every
+run, aborted or not -/
+theorem tree_values_agree (srch : Srch) (loc : String) (ev : Obj) (cands : List (String × RuleM × Bool)) :
+    (processEvent srch loc ev cands).values = treeValues (processEvent srch loc ev cands) :=
+  values_agree srch loc ev cands
+
+/-- `failure_isolated`: replacing the action list of one rule without `serialActions` (same `when`, same
+condition) leaves `err` and `aborted` unchanged and every other rule node identical; the rule's own node keeps its
+id, bindings, condition nodes' environments and errors, and its leaves are rebuilt from the SAME condition results -/
+theorem failure_isolated (srch : Srch) (loc : String) (ev : Obj) (pre post : List (String × RuleM × Bool))
+    (id : String) (r r' : RuleM) (en : Bool)
+    (hw : r'.when? = r.when?) (hc : r'.condition = r.condition) (hs : r.serial = false) (hs' : r'.serial = false) :
+    (processEvent srch loc ev (pre ++ (id, r, en) :: post)).err =
+      (processEvent srch loc ev (pre ++ (id, r', en) :: post)).err ∧
+    (processEvent srch loc ev (pre ++ (id, r, en) :: post)).aborted =
+      (processEvent srch loc ev (pre ++ (id, r', en) :: post)).aborted ∧
+    Pointwise (NodeRel id r r') (processEvent srch loc ev (pre ++ (id, r, en) :: post)).rules
+      (processEvent srch loc ev (pre ++ (id, r', en) :: post)).rules :=
+  change_actions srch loc ev pre post id r r' en hw hc hs hs'
+
+/-- … and when the change is "action `a` replaced by an always-failing `a'`": only `a`'s leaf changes (to the failed
+leaf), the leaves of the other actions `p`, `q` are the same on every result binding, and exactly `a`'s values
+disappear from the values -/
+theorem failure_isolated_leaves (r r' : RuleM) (p q : List J) (a a' : J) (out : List Bs)
+    (h : r.actions = p ++ a :: q) (h' : r'.actions = p ++ a' :: q) (hf : ∀ b, ∃ e, execAction a' b = .error e) :
+    actsOf r out = out.flatMap (fun b => p.map (actNodeOf b) ++ actNodeOf b a :: q.map (actNodeOf b)) ∧
+    actsOf r' out = out.flatMap (fun b => p.map (actNodeOf b) ++ failedNode :: q.map (actNodeOf b)) ∧
+    okValues (actsOf r out) = out.flatMap (fun b =>
+      okValues (p.map (actNodeOf b)) ++ okValues [actNodeOf b a] ++ okValues (q.map (actNodeOf b))) ∧
+    okValues (actsOf r' out) = out.flatMap (fun b => okValues (p.map (actNodeOf b)) ++ okValues (q.map (actNodeOf b))) := by
+  have e1 := actsOf_split r p q a h out
+  have e2 : actsOf r' out = out.flatMap (fun b => p.map (actNodeOf b) ++ failedNode :: q.map (actNodeOf b)) := by
+    rw [actsOf_split r' p q a' h' out]
+    congr 1; funext b
+    obtain ⟨e, he⟩ := hf b
+    rw [actNodeOf_err b a' e he]
+  exact ⟨e1, e2, by rw [e1]; exact okValues_with p q a out, by rw [e2]; exact okValues_failed p q out⟩
+
+/-- a rule with `serialActions` whose actions all succeed behaves like a concurrent one -/
+theorem serial_all_ok (srch : Srch) (loc : String) (ev : Obj) (id : String) (r : RuleM) (bs : Bs)
+    (out : List Bs) (h : condResult srch r (condEnv loc ev id bs) = .ok out) (hs : r.serial = true)
+    (hok : ∀ p ∈ pairsOf r out, ∃ v, execAction p.2 p.1 = .ok v) :
+    evalCond srch loc ev id r bs =
+      ({ bs := condEnv loc ev id bs, err := none, acts := actsOf r out }, okValues (actsOf r out), false) := by
+  rw [evalCond_serial srch loc ev id r bs out h hs, serialRun_all_ok _ hok, map_pairsOf]
+
+/-- a rule with `serialActions` stops at the first failing action: the earlier (binding, action) pairs have their
+completed leaves, the failing one has a failed leaf, the later pairs `post` are NOT executed, and the walk aborts -/
+theorem serial_stops (srch : Srch) (loc : String) (ev : Obj) (id : String) (r : RuleM) (bs : Bs)
+    (out : List Bs) (h : condResult srch r (condEnv loc ev id bs) = .ok out) (hs : r.serial = true)
+    (pre post : List (Bs × J)) (b : Bs) (a : J) (e : LErr) (hp : pairsOf r out = pre ++ (b, a) :: post)
+    (hpre : ∀ p ∈ pre, ∃ v, execAction p.2 p.1 = .ok v) (hf : execAction a b = .error e) :
+    evalCond srch loc ev id r bs =
+      ({ bs := condEnv loc ev id bs, err := none, acts := pre.map (fun p => actNodeOf p.1 p.2) ++ [failedNode] },
+        okValues (pre.map (fun p => actNodeOf p.1 p.2)), true) := by
+  rw [evalCond_serial srch loc ev id r bs out h hs, hp, serialRun_stops pre post b a e hpre hf]
+
+/-- an aborting step (failed condition, or failed action of a serial rule) ends the whole walk: the rules
+dispatched after it get no node -/
+theorem abort_stops_walk (srch : Srch) (loc : String) (ev : Obj) (cands : List (String × RuleM × Bool))
+    (dpre dpost : List (String × RuleM × List Bs)) (d : String × RuleM × List Bs)
+    (hd : dispatch ev cands = .ok (dpre ++ d :: dpost))
+    (hpre : ∀ x ∈ dpre, (ruleStep srch loc ev x).2.2 = false) (hx : (ruleStep srch loc ev d).2.2 = true) :
+    (processEvent srch loc ev cands).rules = (dpre ++ [d]).map (fun x => (ruleStep srch loc ev x).1) ∧
+    (processEvent srch loc ev cands).aborted = true :=
+  tree_abort srch loc ev cands dpre dpost d hd hpre hx
+
+/-! ## 4. `disabled_or_nonmatching_not_run` -/
+
+/-- a disabled candidate contributes nothing: the result is that of the candidate list without it -/
+theorem disabled_not_run (srch : Srch) (loc : String) (ev : Obj) (pre post : List (String × RuleM × Bool))
+    (id : String) (r : RuleM) :
+    processEvent srch loc ev (pre ++ (id, r, false) :: post) = processEvent srch loc ev (pre ++ post) := by
+  rw [processEvent_eq, processEvent_eq, dispatch_drop ev _ post (dispatchOne_disabled ev id r) pre]
+
+/-- a candidate whose `when` does not match the event contributes nothing -/
+theorem nonmatching_not_run (srch : Srch) (loc : String) (ev : Obj) (pre post : List (String × RuleM × Bool))
+    (id : String) (r : RuleM) (en : Bool) (h : whenBindings ev r = .ok []) :
+    processEvent srch loc ev (pre ++ (id, r, en) :: post) = processEvent srch loc ev (pre ++ post) := by
+  rw [processEvent_eq, processEvent_eq, dispatch_drop ev _ post (dispatchOne_nomatch ev id r en h) pre]
+
+/-- conversely every rule node of every tree stems from an enabled candidate whose `when` matched the event
+with exactly the node's (≥ 1) bindings -/
+theorem nodes_are_dispatched (srch : Srch) (loc : String) (ev : Obj) (cands : List (String × RuleM × Bool))
+    (rn : RuleNode) (hrn : rn ∈ (processEvent srch loc ev cands).rules) :
+    ∃ r, (rn.id, r, true) ∈ cands ∧ whenBindings ev r = .ok rn.bss ∧ rn.bss ≠ [] :=
+  tree_nodes_dispatched srch loc ev cands rn hrn
